@@ -1636,3 +1636,58 @@ Proof.
     - cbn. assumption. }
   rewrite Z.mod_small in C1; assumption.
 Qed.
+
+(* ------------------------------------------------------------------ bounds on ao_run in accepted histories *)
+
+Definition ac_runs_ok (c : ac_cfg) (st : ac_state) : Prop :=
+  forall r s t o, ac_entry st r s t = Some o ->
+    0 <= ao_run o /\ (ac_mode c r <> 2 -> ao_run o <= cf_max_non c).
+
+Lemma ac_step_runs_ok : forall c st e st',
+  0 <= cf_max_non c -> ac_wf (as_res st) -> ac_runs_ok c st -> ac_step c st e = AcOk st' ->
+  ac_runs_ok c st'.
+Proof.
+  intros c st [op outs] st' Hmn Hwf Hok H r s t o' E1.
+  destruct (ac_step_entry c st op outs st' r s t o' Hwf H E1)
+    as [[q [Q [_ ->]]]|[[q [ca [k [v [con [_ [Q [_ [_ [_ [Hrun [_ ->]]]]]]]]]]]]|
+        [[q [opts [v [_ [_ [Q [_ ->]]]]]]]|[opts [v [_ [_ [_ [_ ->]]]]]]]]].
+  - destruct (Hok r s t q Q) as [A B]. destruct (ac_is_change op r); cbn; auto.
+  - destruct (Hok r s t q Q) as [A B]. unfold ac_after_notify. cbn. destruct con.
+    + split; [lia | intros; assumption].
+    + split; [lia | exact Hrun].
+  - destruct (Hok r s t q Q) as [A B]. cbn. auto.
+  - cbn. split; [lia | intros; assumption].
+Qed.
+
+Lemma ac_go_runs_ok : forall c tr st st',
+  0 <= cf_max_non c -> ac_wf (as_res st) -> ac_runs_ok c st -> ac_go c st tr = Some st' ->
+  ac_runs_ok c st'.
+Proof.
+  intros c. induction tr as [|e tl IH]; intros st st' Hmn Hwf Hok H; cbn [ac_go] in H.
+  - inversion H; subst. assumption.
+  - destruct (ac_step c st e) as [st1|] eqn:E; [|discriminate].
+    eapply IH; [assumption | eapply ac_step_wf; eassumption | eapply ac_step_runs_ok; eassumption | eassumption].
+Qed.
+
+Lemma ac_init_runs_ok : forall c, ac_runs_ok c (ac_init c).
+Proof.
+  intros c r s t o H. exfalso. unfold ac_entry, ac_find, ac_init in H. cbn [as_res] in H.
+  destruct (ac_get r (ac_init_res 0 (cf_modes c))) as [y|] eqn:G; [|discriminate].
+  apply ac_get_in in G. destruct G as [G _]. apply ac_init_res_ids in G. destruct G as [_ G].
+  rewrite G in H. discriminate.
+Qed.
+
+(* C11, headline form: in an accepted history (from the initial state), any run of consecutive
+   non-confirmable notifications to one observer of a resource that is not NOTIFY_NON_ALWAYS has
+   at most COAP_OBS_MAX_NON members - every (COAP_OBS_MAX_NON + 1)-th notification is confirmable *)
+Theorem ac_con_every : forall c pre st r s t o segs,
+  0 <= cf_max_non c -> ac_mode c r <> 2 ->
+  ac_go c (ac_init c) pre = Some st -> ac_entry st r s t = Some o ->
+  ac_non_chain c r s t st segs ->
+  Z.of_nat (length segs) <= cf_max_non c.
+Proof.
+  intros c pre st r s t o segs Hmn Hm Hgo E0 Hc.
+  pose proof (ac_go_wf c pre _ st (ac_init_wf c) Hgo) as Hwf.
+  pose proof (ac_go_runs_ok c pre _ st Hmn (ac_init_wf c) (ac_init_runs_ok c) Hgo r s t o E0) as [A B].
+  specialize (B Hm). pose proof (ac_con_cadence c r s t segs st o Hm Hwf E0 Hc). lia.
+Qed.
